@@ -203,9 +203,11 @@ static inline void proj_cell(W& w, const Cell* cell, ProjCtx& c, bool all_props)
     w.end_obj();
 }
 
-static inline void proj_library(W& w, const char* key, const Library& lib, bool all_props = false) {
+// fine > 1: coordinates in 1/fine database units (no lattice claim: `lat` is then meaningless)
+static inline void proj_library(W& w, const char* key, const Library& lib, bool all_props = false,
+                                double fine = 1.0) {
     ProjCtx c;
-    c.per_dbu = lib.unit > 0 ? lib.precision / lib.unit : 1;
+    c.per_dbu = (lib.unit > 0 ? lib.precision / lib.unit : 1) / fine;
     if (key) w.key(key);
     w.begin_obj();
     w_str(w, "name", lib.name);
